@@ -21,11 +21,22 @@ def _vis(o):
     return True
 
 
+def _priv(o):
+    """private by itself or through a private container (walked here, independent of Documentable.isPrivate)"""
+    a = o
+    while a is not None:
+        if a.privacyClass is model_privacy_private():
+            return True
+        a = a.parent
+    return False
+
+
 def _cases(tier, seed):
     for k in range(len(site.PRIVACY_SETS)):
         yield {'privacy': k, 'project': 'B'}
     yield {'privacy': 0, 'project': 'two_roots', 'rules': ['HIDDEN:beta']}
     yield {'privacy': 0, 'project': 'two_roots', 'rules': ['HIDDEN:alpha.A', 'PRIVATE:beta']}
+    yield {'privacy': 0, 'project': 'two_roots', 'rules': ['PRIVATE:gamma._inner.helper', 'PRIVATE:beta.B.m', 'PUBLIC:gamma._inner']}
     yield {'privacy': 0, 'project': 'B', 'extra': ['--sidebar-expand-depth', '3']}
     yield {'privacy': 1, 'project': 'B', 'extra': ['--theme', 'readthedocs']}
     yield {'privacy': 4, 'project': 'B', 'extra': ['--theme', 'base', '--sidebar-toc-depth', '1']}
@@ -49,7 +60,9 @@ def _model(files, privacy):
 TWO_ROOTS = {'alpha.py': '"""Alpha. See L{beta.B}."""\nclass A: pass\n', 'beta.py': 'class B:\n    def m(self): pass\n',
              # a package with an entry-point module (private by Module.privacyClass whatever the rules say) and a private sub-module
              'gamma/__init__.py': '"""Gamma."""\n', 'gamma/__main__.py': '"""Entry point."""\ndef main(): "doc"\n',
-             'gamma/_inner.py': 'def helper(): "doc"\nclass _P:\n    def pub(self): "doc"\n'}
+             'gamma/_inner.py': 'def helper(): "doc"\nclass _P:\n    def pub(self): "doc"\n',
+             # namesakes (helper, m, main) spread over modules, so that rules can make some of them private
+             'gamma/tools.py': 'def helper(): "doc"\ndef m(): "doc"\ndef main(): "doc"\n'}
 
 
 def check_site(case, which):
@@ -146,6 +159,26 @@ def check_site(case, which):
                 if t in hidden:
                     fails.append({'observed': f'undoccedSummary.html: hidden {t} is listed', 'required': 'no row in any index',
                                   'class': f'hidden-entry:{t}@undoccedSummary.html', 'hidden': t})
+            # the index of names: an entry (one name, possibly several objects) is marked private exactly when every object of
+            # that name is private - a public object is never folded away with a private namesake
+            for e in idx['pages'].get('nameIndex.html', {}).get('entries', []):
+                if e['tag'] != 'li' or not e.get('hrefs'):
+                    continue
+                targets = []
+                for h in e['hrefs']:
+                    r = site.resolve('nameIndex.html', h)
+                    if r is None:
+                        continue
+                    full = r[0] + ('#' + r[1] if r[1] else '')
+                    targets += [o for n, o in objs.items() if _vis(o) and urllib.parse.unquote(o.url) == full]
+                if not targets:
+                    continue
+                marked = 'private' in e['class'].split()
+                allpriv = all(_priv(o) for o in targets)
+                if marked != allpriv:
+                    fails.append({'observed': f'nameIndex.html: the entry listing {[o.fullName() for o in targets]} (private: {[_priv(o) for o in targets]}) '
+                                              f'has class {e["class"]!r}', 'required': 'marked private exactly when all its objects are private',
+                                  'class': 'nameindex-marking'})
             # the search document of a private object says so (the search page leaves private results out unless asked)
             for n, o in objs.items():
                 if _vis(o) and n in idx['search_privacy'] and (idx['search_privacy'][n] == 'PRIVATE') != (o.privacyClass is model_privacy_private()):
